@@ -24,6 +24,9 @@ CONSTANTS Ns,            \* request body lengths (bytes)
           NetBudget,     \* lost / duplicated datagrams per transfer
           FaultBudget,   \* server faults per transfer
           FixFirstNum,   \* TRUE: the block number of the first Block2 response is checked before its more-flag
+          AckStyles,     \* how the server acknowledges the Block1 requests that are not the last one, chosen per
+                         \* transfer from "a" atomic (2.31, M=1), "s" stateless (2.04, M=0, every block enacted on
+                         \* its own, RFC 7959 2.5), "as"/"sa" alternating (mixed), starting with the named one
           Combined,      \* TRUE: a fault and a loss may hit the same transfer; FALSE: at most one of the two
           FaultAt, NetAt \* {0}:  the fault / the loss may hit any exchange (exhaustive runs); otherwise the ordinal of
                          \* the request datagram it may hit is drawn at submission (spreads -simulate behaviours)
@@ -44,7 +47,7 @@ E0 == [k |-> "", q |-> 0, code |-> 0, b1n |-> -1, b1m |-> -1, b1s |-> -1, b2n |-
 NoR == [b1n |-> -1, b1m |-> -1, b1s |-> -1, b2n |-> -1, b2m |-> -1, b2s |-> -1, plen |-> 0, off |-> -1, size1 |-> -1]
 NoM == [code |-> 0, b1n |-> -1, b1m |-> -1, b1s |-> -1, b2n |-> -1, b2m |-> -1, b2s |-> -1, plen |-> 0, cid |-> -1,
         off |-> -1, etag |-> -1, rid |-> 0, x |-> ""]
-NoAct == [a |-> "", a1 |-> 0, a2 |-> 0, flt |-> "none", fate |-> "ok", M1 |-> 0, M2 |-> 0, sh |-> 0,
+NoAct == [a |-> "", st |-> "a", a1 |-> 0, a2 |-> 0, flt |-> "none", fate |-> "ok", M1 |-> 0, M2 |-> 0, sh |-> 0,
           b1 |-> FALSE, sv |-> FALSE, nb1 |-> 0, nb2 |-> 0, nreq |-> 0, N |-> 0, C |-> 0]
 
 ReqEv(r, rt) == [E0 EXCEPT !.k = "req", !.q = 1, !.code = Method, !.b1n = r.b1n, !.b1m = r.b1m, !.b1s = r.b1s,
@@ -60,7 +63,7 @@ Step(es) == /\ emit' = es /\ obs' = ObsFold(obs, es)
 Init == /\ pc = "idle"
         /\ cl = [N |-> 0, C |-> 0, ph |-> "b1", szx |-> 0, cur |-> 0, req |-> NoR,
                  alen |-> 0, aszx |-> 0, aetag |-> -1, acid |-> -1, aok |-> TRUE, acode |-> 0]
-        /\ srv = [blen |-> -1, bok |-> TRUE, rid |-> 0, M |-> 0, nb1 |-> 0, nb2 |-> 0]
+        /\ srv = [blen |-> -1, bok |-> TRUE, rid |-> 0, M |-> 0, nb1 |-> 0, nb2 |-> 0, style |-> ""]
         /\ msg = NoM /\ nreq = 0 /\ nb = NetBudget /\ fb = FaultBudget /\ arm = [f |-> 0, n |-> 0]
         /\ emit = << >> /\ obs = ObsInit /\ act = NoAct
 
@@ -172,10 +175,16 @@ ServerHandle ==
      IN \E flt \in (IF fb > 0 /\ FaultOk THEN Faults ELSE {}) \cup {"none"},
            fate \in {"ok"} \cup (IF nb > 0 /\ NetOk THEN {"dropresp", "dupresp"} ELSE {}),
            a1 \in (IF r.b1n >= 0 THEN 0..r.b1s ELSE {0}),
+           style \in (IF r.b1n >= 0 /\ r.b1m = 1 /\ srv.style = "" THEN AckStyles ELSE {srv.style}),
            M1 \in (IF final THEN (IF cl.N \in NsWide THEN Ms ELSE MsFew) ELSE {0}) :
         \E M2 \in (IF flt = "etag" THEN {srv.M, srv.M + 20} ELSE {0}),
            a2 \in (IF Serves(r, flt) THEN (IF r.b2n >= 0 THEN 0..r.b2s ELSE 0..MaxSzx) ELSE {0}) :
         LET rid == IF final THEN 1 ELSE IF flt = "etag" THEN 2 ELSE srv.rid
+            \* acknowledgement style of this (not last) Block1 request
+            st == CASE style = "as" -> (IF srv.nb1 % 2 = 0 THEN "a" ELSE "s")
+                    [] style = "sa" -> (IF srv.nb1 % 2 = 0 THEN "s" ELSE "a")
+                    [] style = "s"  -> "s"
+                    [] OTHER        -> "a"
             M == IF final THEN M1 ELSE IF flt = "etag" THEN M2 ELSE srv.M
             szx2 == IF r.b2n >= 0 THEN Min(a2, r.b2s) ELSE a2
         IN \E sh \in (IF flt = "b2short" THEN {1, Size(szx2) - 1} ELSE {0}) :
@@ -189,10 +198,11 @@ ServerHandle ==
                        ELSE (r.plen = 0 \/ r.off = 0)
                ack == IF r.b1n >= 0
                         THEN [NoM EXCEPT !.b1n = r.b1n + (IF flt = "b1num" THEN 1 ELSE 0),
-                                         !.b1m = IF r.b1m = 1 \/ flt = "b1more" THEN 1 ELSE 0,
+                                         !.b1m = IF (r.b1m = 1 /\ st = "a") \/ flt = "b1more" THEN 1 ELSE 0,
                                          !.b1s = a1, !.x = IF flt = "none" THEN "" ELSE flt]
                         ELSE [NoM EXCEPT !.x = IF flt = "none" THEN "" ELSE flt]
-               m == IF r.b1n >= 0 /\ (r.b1m = 1 \/ flt = "b1cont") THEN [ack EXCEPT !.code = 95]
+               m == IF r.b1n >= 0 /\ r.b1m = 1 /\ st = "s" THEN [ack EXCEPT !.code = OkCode]
+                    ELSE IF r.b1n >= 0 /\ (r.b1m = 1 \/ flt = "b1cont") THEN [ack EXCEPT !.code = 95]
                     ELSE Serve(ack, r, rid, M, a2, flt, sh)
                asm == IF final THEN <<[E0 EXCEPT !.k = "asm", !.len = blen1, !.cid = IF blen1 > 0 THEN ReqCid ELSE -1,
                                                   !.cok = bok1]>> ELSE << >>
@@ -207,10 +217,11 @@ ServerHandle ==
                          rid  |-> IF Serves(r, flt) THEN rid ELSE srv.rid,
                          M    |-> IF Serves(r, flt) THEN M ELSE srv.M,
                          nb1  |-> srv.nb1 + (IF r.b1n >= 0 THEN 1 ELSE 0),
-                         nb2  |-> srv.nb2 + (IF Serves(r, flt) THEN 1 ELSE 0)]
+                         nb2  |-> srv.nb2 + (IF Serves(r, flt) THEN 1 ELSE 0),
+                         style |-> style]
               /\ msg' = m
               /\ Step(asm \o (IF final /\ flt = "b1cont" THEN << >> ELSE rep) \o out)
-              /\ act' = [NoAct EXCEPT !.a = "srv", !.a1 = a1, !.a2 = a2, !.flt = flt, !.fate = fate, !.M1 = M1, !.M2 = M2,
+              /\ act' = [NoAct EXCEPT !.a = "srv", !.st = st, !.a1 = a1, !.a2 = a2, !.flt = flt, !.fate = fate, !.M1 = M1, !.M2 = M2,
                                       !.sh = sh, !.b1 = (r.b1n >= 0), !.sv = Serves(r, flt), !.nb1 = srv.nb1,
                                       !.nb2 = srv.nb2, !.nreq = nreq]
         /\ fb' = IF flt = "none" THEN fb ELSE fb - 1
